@@ -11,6 +11,7 @@ from .. import refmodel as rm
 from .. import spec as sp
 
 ID = 'C09'
+ANCHOR_FILES = ['generator/generator_ha_sm_hr.py', 'generator/generator_spa.py', 'solver/fileIO.py', 'solver/solver.py']
 LEVEL = 'exploration'
 NEEDS_DEPS = True
 EVAL_COUNTER = 'solver_runs'
